@@ -116,6 +116,7 @@ type Path struct {
 	occ       map[string]int
 	pools     map[*value][]poolItem // sync.Pool contents
 	pendingGo []pendingGoroutine   // goroutines started by the code under test, not scheduled
+	addrIDs   map[*value]int       // printed addresses
 	obs       []Obs
 	sites     map[string]int
 	cands     []Candidate
